@@ -27,7 +27,7 @@ FamEmpty(s)  == \E c \in comps : famc[c][s] = {}
 CredC(s, A)  == ~FamEmpty(s) /\ \E c \in comps : \E E \in famc[c][s] : E \cap A # {}
 SkepC(s, A)  == FamEmpty(s) \/ \E c \in comps : \A E \in famc[c][s] : E \cap A # {}
 
-Report(name, ok) == ok \/ PrintT(<<"T1", l, name>>)
+Report(name, ok) == IF ok THEN TRUE ELSE PrintT(<<"T1", l, name>>)
 
 ExtSet(o) == {p[1] : p \in ToSet(o.ext)}
 WellFormedExt(o) == /\ Len(o.ext) = Cardinality(ToSet(o.ext))          \* each member once
